@@ -67,7 +67,7 @@ var chainDenoms = []string{"ausdc", "abtc", "ibc/ETH", "aeth", "atk05", "atk06",
 var chainGenTime = time.Unix(1_700_000_000, 0).UTC()
 
 // coins that exist in the bank but are not whitelisted in coinswap (RegisterCoin candidates, rejected adds)
-var extraDenoms = []string{"ucoin", "zjunk", "anote"}
+var extraDenoms = []string{"ucoin", "zjunk", "anote", "UCOIN"}
 
 // ---------- configuration shared by every replica of one run ----------
 
